@@ -279,11 +279,27 @@ FoldMax(vs, i, best, want) ==
 FunMax(vs) == IF Len(vs) = 0 THEN VUndef ELSE FoldMax(vs, 2, vs[1], "gt")
 FunMin(vs) == IF Len(vs) = 0 THEN VUndef ELSE FoldMax(vs, 2, vs[1], "lt")
 
+\* sign of a real value known exactly or through its monomial form: -1, 0, 1, else 2
+PhaseSign(v) ==
+    IF ~IsNum(v) THEN 2
+    ELSE IF ExactReal(v) THEN RealSign(v)
+    ELSE IF v.mo = NoMono THEN 2
+    ELSE IF v.mo[5] = 0 THEN 1 ELSE IF v.mo[5] = 12 THEN -1 ELSE 2
+
 Fun2(f, a, b) ==
     IF a.t \in {"undef", "bool"} \/ b.t \in {"undef", "bool"} THEN VUndef
     ELSE
     CASE f = "atan2" ->        \* atan2(y, x)
-           IF ~(IsNum(a) /\ IsNum(b) /\ ExactRat(a) /\ ExactRat(b)) THEN VUndef
+           IF ~(IsNum(a) /\ IsNum(b)) THEN VUndef
+           ELSE IF ~(ExactRat(a) /\ ExactRat(b))
+           THEN \* real radicals: sign from the monomial form (phase 0 / 12), angle of y/x from the table
+                LET sy == PhaseSign(a) sx == PhaseSign(b)
+                    q == VDiv(a, b)
+                    k == IF IsNum(q) THEN FindTan(q, -5, 5) ELSE NoK
+                IN IF sy \notin {-1, 1} \/ sx \notin {-1, 1} \/ k = NoK THEN VUndef
+                   ELSE IF sx = 1 THEN VPiMul(RMk(k, 12))
+                   ELSE IF sy = 1 THEN VPiMul(RMk(k + 12, 12))
+                   ELSE VPiMul(RMk(k - 12, 12))
            ELSE LET y == a.re x == b.re
                 IN (CASE y = R0 /\ RSign(x) > 0 -> V0
                      [] y = R0 /\ RSign(x) < 0 -> VPi
